@@ -341,7 +341,10 @@ func sameURL(a, b *jsonapi.URL) string {
 }
 
 func c07Case(c *ctx, sc schemaSpec, raw string, how string, prop string) {
-	schema := sc.build()
+	c07CaseOn(c, sc, sc.build(), raw, how, prop)
+}
+
+func c07CaseOn(c *ctx, sc schemaSpec, schema *jsonapi.Schema, raw string, how string, prop string) {
 	var key, detail string
 	var u *jsonapi.URL
 	var err error
@@ -568,6 +571,31 @@ func runURLs(c *ctx, prop string) {
 		"/t?filter=%7B%22f%22%3A%22a%22%2C%22o%22%3A%22%3D%22%2C%22v%22%3A%22x%20%23y%22%7D", "/u/é/owner", "/t/1/self/extra/more"}
 	for _, raw := range corpus {
 		c07Case(c, sc, raw, "corpus", prop)
+	}
+	// list parameters with blank, tab and '+' items
+	for _, name := range []string{"sort", "include", "fields[t]", "fields%5Bt%5D"} {
+		for _, v := range []string{"+", "%20", "a,%20,b", "-a,+,id", "%09", "a,,b", ",", " a", "a%20", "r,%20", "%20,r", "-%20", "-"} {
+			c07Case(c, sc, "/t?"+name+"="+v, "blank-items", prop)
+			c07Case(c, sc, "/t/1/rs?"+name+"="+v, "blank-items", prop)
+		}
+	}
+	// a schema that was used, then edited: a removed type must be gone for the parser, an added one known
+	for _, raw := range []string{"/gone", "/gone/1", "/late", "/late/1", "/late?sort=-a", "/holder/1/g", "/holder/1/relationships/g", "/holder?include=g",
+		"/t?fields[gone]=title", "/t?fields[late]=a", "/holder", "/t?include=r"} {
+		for v := 0; v < 3; v++ {
+			schema, sc2 := editedSchema(sc, v)
+			c07CaseOn(c, sc2, schema, raw, "schema-edited", prop)
+		}
+	}
+	// another schema whose types have the same names but other fields, in the same process
+	sc3 := schemaSpec{types: []typeSpec{
+		{name: "t", fields: []fieldSpec{{name: "zeta", code: 1}, {name: "a", code: 2}, {rel: true, name: "r", toOne: false, target: "u"}}},
+		{name: "u", fields: []fieldSpec{{name: "name", code: 1}}},
+		{name: "empty", fields: []fieldSpec{{name: "now-has-one", code: 12}}}}, wrapped: map[string]bool{}}
+	for _, raw := range []string{"/t", "/t?sort=zeta", "/u", "/t/1/r", "/t?fields[t]=zeta", "/empty", "/t?include=r", "/t?sort=a,-zeta&fields[u]=name"} {
+		c07Case(c, sc, raw, "two-schemas", prop)
+		c07Case(c, sc3, raw, "two-schemas", prop)
+		c07Case(c, sc, raw, "two-schemas", prop)
 	}
 	n := 1500
 	if c.thorough() {
